@@ -8,15 +8,20 @@ from ..symx import ite, smax, sabs, sand, sor
 D = Decimal
 META = {
     "level": "model_checking",
-    "level_text": "Bounded symbolic model checking of the real AaveV3Market: supply/withdraw/borrow/repay sequences with all amounts, "
+    "level_text": "Bounded symbolic model checking of the real AaveV3Market: (a) supply/withdraw/borrow/repay sequences with all amounts, "
     "indices and prices symbolic; z3 proves on every feasible path that balances equal amount x index ratio and that wallet, "
-    "position and action record move by exactly the stated amounts. Holds for every value inside the bounds, not beyond the "
-    "sequence lengths listed.",
+    "position and action record move by exactly the stated amounts; (b) an inductive step: from an ARBITRARY valid portfolio (scaled "
+    "balances, both indices and price per token, wallet all symbolic) one real operation with a symbolic amount moves the scaled balance "
+    "by exactly amount / index of the current bar (the token's own index), the wallet by the stated amount, leaves every component it "
+    "does not name untouched, and after a later bar with arbitrary larger indices every reported balance is scaled balance x that bar's "
+    "index -- one step from an unconstrained pre-state stands for histories of any length; (c) op(a1); op(a2) versus op(a1 + a2) from the "
+    "same symbolic portfolio end in the same state within 2e-18 scaled. Holds for every value inside the bounds.",
     "bounds": [
         "sequences of <= 3 user operations with <= 3 bar changes between them, <= 2 tokens",
         "amounts in (0, 1e12], indices in [1, 10] non-decreasing, prices in (0, 1e7]",
+        "inductive step and split/merge: portfolio shapes A-C (quick) / A-L (thorough) of vf/models/aave.py, scaled amounts in [1e-9,1e9], indices [1,4] then [idx,8], prices [1e-3,1e5], amounts in [0,1e10]",
     ],
-    "outside": ["longer operation sequences (covered inductively only for the accrual identity)", "Decimal rounding below 1e-30 relative"],
+    "outside": ["portfolios of more than 3 tokens", "acceptance of a split repayment that the wallet covers only through its own 1e-5 snap (the wallet's dust rule, C03)", "Decimal rounding below 1e-30 relative"],
     "assumptions": ["Decimal arithmetic modelled as exact reals; equalities proved with slack 1e-25 relative (DESIGN 6.1)"],
 }
 REL = D("1e-25")
